@@ -40,6 +40,13 @@ Theorem SRC_write_str : forall dbg g s a, gw_inv g ->
             (forall g', r = Ok g' -> gw_inv g' /\ (s <> [] -> g_lst g' <> PartialIndent)).
 Proof. exact src_write_str_inv. Qed.
 
+(* a payload's whole rendering, in any chunking (one write_str call per chunk) *)
+Theorem SRC_write_chunks : forall dbg chunks g a, gw_inv g ->
+  exists r, g_write_chunks dbg chunks g a = (a, r) /\
+            map_res absw r = write_chunks dbg chunks (absw g) /\
+            (forall g', r = Ok g' -> gw_inv g').
+Proof. intros. apply src_write_chunks. assumption. Qed.
+
 (* the invariant holds initially and is kept by the two other operations of a print *)
 Theorem SRC_writer_invariant :
   gw_inv (mkGW [] BeforeIndent [] 0) /\
@@ -52,3 +59,4 @@ Print Assumptions SRC_indent_writer_items.
 Print Assumptions SRC_complete_partial_indent.
 Print Assumptions SRC_write_str.
 Print Assumptions SRC_writer_invariant.
+Print Assumptions SRC_write_chunks.
